@@ -564,3 +564,16 @@ def _register_shared_round9():
 
 
 # _register_shared_round9() is called by the driver after this module is fully imported (no import cycles)
+
+
+# "stale cache content is never used silently": the marker of a patch is read back as what was written (edges and closed side) and
+# the trees are reused only for exactly that binning (C07 units on BinnedTrees), also after an interrupted rebuild
+def _register_shared_round10():
+    from . import C07 as _C07
+    unit(P, "BinnedTrees.build", fuc=["yaw.catalog.trees:BinnedTrees.build", "yaw.catalog.trees:BinnedTrees.__init__", "yaw.catalog.trees:BinnedTrees.binning_equal"],
+         cases=_C07.CASES)(_C07.u_build)
+    unit(P, "BinnedTrees.read_side", fuc=["yaw.catalog.trees:BinnedTrees.__init__", "yaw.catalog.trees:BinnedTrees.trees"],
+         cases=[dict(prior=p) for p in ("none", "unbinned", "left", "right")])(_C07.u_read)
+
+
+# _register_shared_round10() is called by the driver after this module is fully imported (no import cycles)
